@@ -39,15 +39,14 @@ Full statement / proved / missing
   NotUndef) and the tail; the result is again well-formed and in the fragment (corollary of C03 stage 4: the Tuple fold needs transitivity);
   `C04_generalize_variant_partial` — the sixth law WITH Variant at any nesting (its `Generic()` removes members that became `Equals`: the
   kept member accepts the removed one's original by transitivity, C03 stage 4), on the fragment of transitivity `Ty.TA` (no Unit; no
-  Struct under the code's setting of the rule), no Data / RichData below a decomposition;
+  Struct under the code's setting of the rule; Data / RichData allowed);
   `C04_accepts_sound` — the third law with no hypothesis on the detailed type (rule off; same values as `C04_dtype`);
   `C04_dtype` — THE SECOND LAW, unconditional, for every value without type values and without a hash keyed by strings only with the
   empty string among them;
 * missing: the first law for values that hold TYPE values (commonType of two `Type[..]` recurses into arbitrary types: Tuple / Variant
   merges need transitivity stage 2), the second law for hashes with non-string / empty-string keys;
   `C04_common` with Unit nested inside an argument (Unit absorbs: e.g. a Variant with a Unit member accepts everything) or a Struct under
-  the code's setting of the rule; `C04_generalize` with Unit / Struct under the rule / aliases
-  inside a Variant.  All six laws are evaluated on the
+  the code's setting of the rule; `C04_generalize` with Unit / Struct under the rule.  All six laws are evaluated on the
   implementation for every generated case.
 -/
 namespace Pcore.Lat
@@ -142,22 +141,21 @@ example (cfg : Cfg) :
 /-- sixth law WITH VARIANT (corollary of C03 stage 4): `Generic()` of a Variant generalises the members and removes those that became
     `Equals` to an earlier one (`UniqueTypes`); the kept member accepts the removed one's generalisation (equal types accept each other)
     and that accepts the original member, hence the kept one does, by TRANSITIVITY.  For every well-formed type of the stage-4 fragment
-    of transitivity `Ty.TA sfh` (no Unit; with the code's setting `sfh = true` no Struct) without Data / RichData below a decomposition,
+    of transitivity `Ty.TA sfh` (no Unit; with the code's setting `sfh = true` no Struct; Data / RichData allowed anywhere),
     ranges as the constructors allow (`Ty.GenOKV` = `Ty.GenOK` with Variant allowed, any nesting). -/
 theorem C04_generalize_variant_partial (cfg : Cfg) (sfh : Bool) (hl : ∀ s, (cfg.lower s).length = s.length) (t : Ty)
-    (wt : Ty.WF cfg t) (nt : t.NoAlias) (ft : t.TA sfh) (gt : t.GenOKV) :
+    (wt : Ty.WF cfg t) (ft : t.TA sfh) (gt : t.GenOKV) :
     asg cfg sfh (generalize t) t = true ∧ asg cfg sfh (genericType t) t = true :=
-  gen_asg_var cfg sfh hl t.w t (Nat.le_refl _) ⟨wt, nt, ft⟩ gt
+  gen_asg_var cfg sfh hl t.w t (Nat.le_refl _) ⟨wt, ft⟩ gt
 
 /-- non-vacuity: Variant[Integer[0,5], Integer[7,9], Array[String[1,1],0,3]] generalises to Variant[Integer, Array[String]] (the second
     Integer is removed as `Equals` to the first) -/
 example (cfg : Cfg) :
     Ty.WF cfg (.variant [.int ⟨0, 5⟩, .int ⟨7, 9⟩, .array (.strSz ⟨1, 1⟩) ⟨0, 3⟩]) ∧
-    (Ty.variant [.int ⟨0, 5⟩, .int ⟨7, 9⟩, .array (.strSz ⟨1, 1⟩) ⟨0, 3⟩]).NoAlias ∧
     (Ty.variant [.int ⟨0, 5⟩, .int ⟨7, 9⟩, .array (.strSz ⟨1, 1⟩) ⟨0, 3⟩]).TA true ∧
     (Ty.variant [.int ⟨0, 5⟩, .int ⟨7, 9⟩, .array (.strSz ⟨1, 1⟩) ⟨0, 3⟩]).GenOKV ∧
     generalize (.variant [.int ⟨0, 5⟩, .int ⟨7, 9⟩, .array (.strSz ⟨1, 1⟩) ⟨0, 3⟩]) = .variant [.int Rng.all, .array .str Rng.pos] := by
-  refine ⟨by simp [Ty.WF], by simp [Ty.NoAlias], by simp [Ty.TA], ?_, ?_⟩
+  refine ⟨by simp [Ty.WF], by simp [Ty.TA], ?_, ?_⟩
   · simp [Ty.GenOKV, Rng.inI64, Rng.isSize, I64.min, I64.max]
   · simp [generalize, generalizeL, uniqueTy, uniqueTyAux, mkVariant, tyEq, Ty.isAny, Rng.all, Rng.pos]
 
